@@ -101,6 +101,8 @@ pub fn inscribed_from_spanning_ray(curve: &Curve2, ray: &SpanningRay, tol: f64) 
     // While the distance between the positive and negative search bounds is greater than the
     // tolerance, continue to search for the inscribed circle center.
     while (positive.fraction - negative.fraction) * ray.dir().norm() > tol {
+        #[cfg(feature = "verif")]
+        crate::verif_hooks::tick("helpers::inscribed_from_spanning_ray");
         // We will update the working point to be right in the middle of the positive and negative
         // direction limits.
         let fraction = (positive.fraction + negative.fraction) * 0.5;
@@ -318,6 +320,8 @@ impl OrientedCircles {
         };
 
         while total < distance {
+            #[cfg(feature = "verif")]
+            crate::verif_hooks::tick("helpers::get_end_curve");
             let c = &self.circles[i];
             if let Some(last) = points.last() {
                 total += dist(last, &c.center());
@@ -455,6 +459,8 @@ pub fn refine_stations(
     inner_tol: f64,
 ) {
     while let Some(next) = stack.pop() {
+        #[cfg(feature = "verif")]
+        crate::verif_hooks::tick("helpers::refine_stations");
         if let Some(last) = dest.last() {
             let n = if next.spanning_ray.dir().dot(&last.spanning_ray.dir()) < 0.0 {
                 next.reversed()
